@@ -19,7 +19,7 @@ open Discret.Room (Key Ent RightType User Right Auth Err)
     room parsed from it installed; for an unknown room, the candidate itself. -/
 theorem C07_accept_shape (d : Defects) (s s' : RStore) (cand : RoomNode) (h : accept d s cand = .ok s') :
     cand.sigsOk = true ∧ cand.consistent = true ∧
-    ((∃ room old, s.rooms.find? (·.id = cand.node.id) = some room ∧ readBack s cand.node.id = some old ∧
+    ((∃ room old, s.rooms.find? (·.id = cand.node.id) = some room ∧ readBack d.newestFirstRead s cand.node.id = some old ∧
         ∃ merged upd, prepareWithHistory d room old cand = some (.ok (merged, upd)) ∧
           ((upd = false ∧ s' = s) ∨
            (upd = true ∧ ∃ r, merged.parse = .ok r ∧ s' = installRoom (writeRoom s merged) r))) ∨
@@ -108,7 +108,7 @@ theorem C07_new_room (cand : RoomNode) (room : RoomT) (h : prepareNewRoom cand =
     `sys.Room` row signed by an admin, and the stored one otherwise. -/
 theorem C07_bound_to_place (s s' : RStore) (cand : RoomNode) (h : accept Defects.none s cand = .ok s') :
     cand.placingOk = true ∧
-    ∀ room old merged upd, s.rooms.find? (·.id = cand.node.id) = some room → readBack s cand.node.id = some old →
+    ∀ room old merged upd, s.rooms.find? (·.id = cand.node.id) = some room → readBack false s cand.node.id = some old →
       prepareWithHistory Defects.none room old cand = some (.ok (merged, upd)) →
       (rowEq merged.node cand.node = true ∧
         (rowEq cand.node old.node = true ∨
@@ -224,7 +224,7 @@ theorem C07_breaks_roomRowUnchecked :
                               authNodes := [{ g102 with userNodes := g102.userNodes ++ [row 111 102 300 0 (.user 1 true)],
                                                          userEdges := g102.userEdges ++ [edge 102 101 34 111 300 0] }] }
     let s1 := stateOf (accept Defects.beforeFixes w0 cand)
-    (readBack w0 10).isSome = true ∧ readBack s1 10 = none ∧
+    (readBack false w0 10).isSome = true ∧ readBack false s1 10 = none ∧
     accept Defects.beforeFixes s1 room10 = .err .noHistory ∧
     accept Defects.asImplemented w0 cand = .err .notAuthorised ∧
     accept Defects.none w0 cand = .err .notAuthorised := by
@@ -303,7 +303,7 @@ example : ∃ s', accept Defects.none w0 honestUpdate = .ok s' ∧ s'.nodes.leng
   ⟨stateOf (accept Defects.none w0 honestUpdate), by decide⟩
 -- an older room row (a peer that lags behind) does not hurt: the stored row is kept, the new entry accepted
 example : ∃ s', accept Defects.asImplemented w0 { honestUpdate with node := { row 10 100 100 0 (.other 0) with mdate := 50 } } = .ok s' ∧
-    (readBack s' 10).map (·.node.mdate) = some 100 :=
+    (readBack false s' 10).map (·.node.mdate) = some 100 :=
   ⟨stateOf (accept Defects.asImplemented w0 { honestUpdate with node := { row 10 100 100 0 (.other 0) with mdate := 50 } }), by decide⟩
 -- a user entry signed by a plain user is refused, an altered stored entry is refused
 example : accept Defects.asImplemented w0
